@@ -144,8 +144,11 @@ class _Raw:
     i = env.n_read
     env.n_read += 1
     f = env.fault
+    if getattr(self, 'dead', False):
+      return b''          # a body stream that has failed does not resume: later reads see a closed connection
     if f['kind'] == 'read' and f['i'] == i and not env.fired:
       env.fired = True
+      self.dead = True
       raise read_exception(f.get('exc', 'OSError'), i)
     if n is None or n < 0:
       n = len(self.data) - self.pos
@@ -156,7 +159,7 @@ class _Raw:
 
 # What a dropped / stalled connection looks like to the caller of response.raw.read(): urllib3 raises its own classes there,
 # requests wraps some of them, the socket layer raises OSError.
-READ_EXCS = ('OSError', 'requests.ConnectionError', 'requests.Timeout', 'requests.ChunkedEncodingError',
+READ_EXCS = ('OSError', 'TimeoutError', 'requests.ConnectionError', 'requests.Timeout', 'requests.ReadTimeout', 'requests.ChunkedEncodingError',
              'urllib3.ProtocolError', 'urllib3.ReadTimeoutError', 'http.IncompleteRead')
 
 
@@ -164,6 +167,8 @@ def read_exception(kind, i):
   msg = f'injected: connection lost while reading block {i}'
   if kind == 'OSError':
     return IOError(errno.ECONNRESET, msg)
+  if kind == 'TimeoutError':
+    return TimeoutError(errno.ETIMEDOUT, msg)
   if kind.startswith('requests.'):
     import requests
     return getattr(requests.exceptions, kind.split('.')[1])(msg)
